@@ -89,7 +89,10 @@ def _worker_batch(prop, tier, base, indices, recheck_every):
         agg["sim_time"] += r.sim_time
         agg["steps"] += r.steps
         agg["strata"].hit(r.stratum or "-")
-        if r.nontrivial:
+        if r.stats.get("digests") is not None:
+            agg["nontrivial"] += len(r.stats["digests"])
+            agg["digests"].extend(r.stats["digests"])
+        elif r.nontrivial:
             agg["nontrivial"] += 1
             agg["digests"].append(r.digest[:16])
         if hasattr(mod, "merge_stats"):
@@ -345,8 +348,12 @@ def write_evidence(mod, prop, tier, base_seed, n, total, wall, known_hits, n_unk
     stats = dict(total["stats"])
     if hasattr(mod, "finalise_stats"):
         stats = mod.finalise_stats(stats)
+    evals = total["runs"]
+    if getattr(mod, "EVALS_FROM_STATS", None):
+        evals = stats.get(mod.EVALS_FROM_STATS, evals)
+        stats["histories"] = total["runs"]
     cov = {
-        "evaluations": total["runs"],
+        "evaluations": evals,
         "distinct_nontrivial": len(total["digests"]),
         "rule": getattr(mod, "RULE", ""),
         "samples": total["samples"][:3],
